@@ -375,7 +375,7 @@ def main():
                 if cfg.get("compare", "eq") == "eq":
                     agree = (mo == c["obs"])
                 else:  # membership: model prints alternatives separated by " | "
-                    agree = c["obs"] in [x.strip() for x in mo.split(" | ")]
+                    agree = c["obs"].strip() in [x.strip() for x in mo.split(" | ")]
                 if not agree:
                     disagreements.append(c)
 
